@@ -36,10 +36,15 @@ const (
 	dContent
 	dCellW
 	dContainer
+	dPageH
+	dPageGeom
+	dRowH
+	dVAlign
+	dCellH
 	nDims
 )
 
-var dimNames = [nDims]string{"width", "layout", "spacing", "border", "section", "caption", "cols", "content", "cellw", "container"}
+var dimNames = [nDims]string{"width", "layout", "spacing", "border", "section", "caption", "cols", "content", "cellw", "container", "pageh", "pagegeom", "rowh", "valign", "cellh"}
 
 var dimValues = [nDims][]string{
 	dWidth:     {"auto", "50px", "150px", "100%"},
@@ -49,9 +54,21 @@ var dimValues = [nDims][]string{
 	dSection:   {"plain", "thead", "tfoot", "tfoot-first", "thead+tfoot", "two-tbody"},
 	dCaption:   {"none", "top", "bottom"},
 	dCols:      {"none", "col-w30", "col-span2-w20", "colgroup-span2-w40", "colgroup-col-col50%", "five-cols"},
-	dContent:   {"rot0", "rot1", "rot2", "rot3", "all-empty", "all-long", "empty-short-short-empty-letter", "alt-short-empty"},
+	dContent:   {"rot0", "rot1", "rot2", "rot3", "all-empty", "all-long", "empty-short-short-empty-letter", "alt-short-empty", "tall-multirow", "tall-even"},
 	dCellW:     {"auto", "first-30px", "first-50%", "last-30px", "last-50%"},
 	dContainer: {"200", "100"},
+	// page height: 1000px keeps the table on one page; 15px holds one text line (every table of
+	// two rows is split, and so is every cell of two lines), 25px two lines
+	dPageH: {"1000px", "15px", "25px"},
+	// horizontal geometry of the pages (only observable when the table is split): the first page
+	// has a left margin; left and right pages have mirrored margins; the first page is wider
+	dPageGeom: {"same", "first-margin-left-20", "mirrored-margins-30-10", "first-page-wider-100"},
+	// specified height on <tr>
+	dRowH: {"auto", "last-5px", "last-25px", "all-15px", "first-25px"},
+	// vertical-align of every cell
+	dVAlign: {"baseline", "top", "middle", "bottom"},
+	// specified height on one <td>
+	dCellH: {"auto", "first-30px", "last-30px"},
 }
 
 type doc struct {
@@ -85,7 +102,8 @@ func parseCode(code string) (*doc, bool) {
 	}
 	r, e1 := strconv.Atoi(rc[0])
 	c, e2 := strconv.Atoi(rc[1])
-	if e1 != nil || e2 != nil || r < 1 || c < 1 || len(p[1]) != r*c || len(p[2]) != nDims {
+	// codes written before a dimension was added are shorter: the missing options are the defaults
+	if e1 != nil || e2 != nil || r < 1 || c < 1 || len(p[1]) != r*c || len(p[2]) > nDims {
 		return nil, false
 	}
 	d := &doc{r: r, c: c, span: make([]uint8, r*c)}
@@ -96,7 +114,7 @@ func parseCode(code string) (*doc, bool) {
 		}
 		d.span[i] = v
 	}
-	for i := range d.opt {
+	for i := range p[2] {
 		v := p[2][i] - '0'
 		if int(v) >= len(dimValues[i]) {
 			return nil, false
@@ -124,8 +142,45 @@ func (d *doc) deviations() int {
 
 // ---- derived input facts -------------------------------------------------------------------
 
-func (d *doc) collapse() bool      { b := d.opt[dBorder]; return b >= 2 && b <= 4 }
-func (d *doc) containerW() float64 { return [...]float64{200, 100}[d.opt[dContainer]] }
+func (d *doc) collapse() bool    { b := d.opt[dBorder]; return b >= 2 && b <= 4 }
+func (d *doc) pageW() float64    { return [...]float64{200, 100}[d.opt[dContainer]] }
+func (d *doc) paginated() bool   { return d.opt[dPageH] != 0 }
+func (d *doc) pageGeom() uint8   { return d.opt[dPageGeom] }
+func (d *doc) pageHeight() int   { return [...]int{1000, 15, 25}[d.opt[dPageH]] }
+func (d *doc) geomMatters() bool { return d.paginated() && d.opt[dPageGeom] != 0 }
+
+// containerW is the width of the page area of page p (0-based): the containing block of the
+// table, computed from the @page rules of the input.
+func (d *doc) containerW(p int) float64 {
+	w := d.pageW()
+	switch d.opt[dPageGeom] {
+	case 1:
+		if p == 0 {
+			return w - 20
+		}
+	case 2:
+		return w - 40
+	case 3:
+		if p == 0 {
+			return w + 100
+		}
+	}
+	return w
+}
+
+// pageRules gives the @page rules of the document.
+func (d *doc) pageRules() string {
+	s := fmt.Sprintf("@page{size:%gpx %dpx;margin:0}", d.pageW(), d.pageHeight())
+	switch d.opt[dPageGeom] {
+	case 1:
+		s += " @page :first{margin-left:20px}"
+	case 2:
+		s += " @page :right{margin-left:30px;margin-right:10px} @page :left{margin-left:10px;margin-right:30px}"
+	case 3:
+		s += fmt.Sprintf(" @page :first{size:%gpx %dpx}", d.pageW()+100, d.pageHeight())
+	}
+	return s
+}
 
 // spacing returns the effective (horizontal, vertical) border spacing.
 func (d *doc) spacing() (hs, vs float64) {
@@ -141,15 +196,15 @@ func (d *doc) spacing() (hs, vs float64) {
 	return 0, 0
 }
 
-// specifiedWidth returns the width the author asked for (px), 0 when auto.
-func (d *doc) specifiedWidth() float64 {
+// specifiedWidth returns the width the author asked for (px) on page p, 0 when auto.
+func (d *doc) specifiedWidth(p int) float64 {
 	switch d.opt[dWidth] {
 	case 1:
 		return 50
 	case 2:
 		return 150
 	case 3:
-		return d.containerW()
+		return d.containerW(p)
 	}
 	return 0
 }
@@ -157,12 +212,39 @@ func (d *doc) specifiedWidth() float64 {
 // fixedEffective: the fixed algorithm applies only when the width is not auto (CSS 2.1 §17.5.2).
 func (d *doc) fixedEffective() bool { return d.opt[dLayout] == 1 && d.opt[dWidth] != 0 }
 
+// tall: the content of cell k is a column of lines separated by <br> (its height does not depend
+// on the width it gets).
+func (d *doc) tall(k int) int {
+	switch d.opt[dContent] {
+	case 8: // the cells that span rows are 4 lines high: higher than two or three rows of one line
+		if sym := spanMenu[d.span[k]]; !sym.absent && sym.rs != 1 {
+			return 4
+		}
+	case 9: // every other cell is 3 lines high
+		if k%2 == 0 {
+			return 3
+		}
+	}
+	return 0
+}
+
 // content of cell k (source order index among all r*c positions): words.
 func (d *doc) words(k int) []string {
 	l := string(rune('a' + k%26))
 	short, long, two := []string{l + l}, []string{strings.Repeat(l, 6)}, []string{l + l, l + l + l}
 	var rot = [][]string{short, two, nil, long}
+	if n := d.tall(k); n > 0 {
+		out := make([]string, n)
+		for i := range out {
+			out[i] = l + l
+		}
+		return out
+	}
 	switch c := int(d.opt[dContent]); c {
+	case 8:
+		return rot[k%4]
+	case 9:
+		return short
 	case 4:
 		return nil
 	case 5:
@@ -384,30 +466,58 @@ func (d *doc) grid() *refGrid {
 // ---- HTML ------------------------------------------------------------------------------------
 
 func (d *doc) cellWidthStyle(k, first, last int) string {
+	w := ""
 	switch d.opt[dCellW] {
 	case 1:
 		if k == first {
-			return "width:30px"
+			w = "width:30px"
 		}
 	case 2:
 		if k == first {
-			return "width:50%"
+			w = "width:50%"
 		}
 	case 3:
 		if k == last {
-			return "width:30px"
+			w = "width:30px"
 		}
 	case 4:
 		if k == last {
-			return "width:50%"
+			w = "width:50%"
 		}
 	}
-	return ""
+	if h := d.opt[dCellH]; (h == 1 && k == first) || (h == 2 && k == last) {
+		if w != "" {
+			w += ";"
+		}
+		w += "height:30px"
+	}
+	return w
+}
+
+// rowHeight is the height specified on source row i (px), 0 when auto.
+func (d *doc) rowHeight(i int) float64 {
+	switch d.opt[dRowH] {
+	case 1:
+		if i == d.r-1 {
+			return 5
+		}
+	case 2:
+		if i == d.r-1 {
+			return 25
+		}
+	case 3:
+		return 15
+	case 4:
+		if i == 0 {
+			return 25
+		}
+	}
+	return 0
 }
 
 func (d *doc) html() string {
 	var sb strings.Builder
-	fmt.Fprintf(&sb, `<style>@page{size:%gpx 1000px;margin:0} html,body{margin:0;font-family:ahem;font-size:10px;line-height:1} `, d.containerW())
+	sb.WriteString(`<style>` + d.pageRules() + ` html,body{margin:0;font-family:ahem;font-size:10px;line-height:1} `)
 	switch d.opt[dBorder] {
 	case 0:
 		sb.WriteString(`td{padding:0}`)
@@ -421,6 +531,9 @@ func (d *doc) html() string {
 		sb.WriteString(`table{border-collapse:collapse} td{padding:0;border:1px solid} tr:first-child>td:first-child{border-width:3px}`)
 	case 5:
 		sb.WriteString(`td{padding:1px 3px}`)
+	}
+	if v := d.opt[dVAlign]; v != 0 {
+		sb.WriteString(` td{vertical-align:` + dimValues[dVAlign][v] + `}`)
 	}
 	sb.WriteString(`</style>`)
 	fmt.Fprintf(&sb, `<table style="border-spacing:%s`, dimValues[dSpacing][d.opt[dSpacing]])
@@ -464,7 +577,11 @@ func (d *doc) html() string {
 			sb.WriteString("<" + gr.kind + ">")
 		}
 		for _, row := range gr.rows {
-			sb.WriteString("<tr>")
+			fmt.Fprintf(&sb, "<tr id=r%d", row.src)
+			if h := d.rowHeight(row.src); h > 0 {
+				fmt.Fprintf(&sb, ` style="height:%gpx"`, h)
+			}
+			sb.WriteString(">")
 			for col := 0; col < d.c; col++ {
 				k := row.src*d.c + col
 				sym := spanMenu[d.span[k]]
@@ -482,7 +599,11 @@ func (d *doc) html() string {
 					fmt.Fprintf(&sb, ` style="%s"`, st)
 				}
 				sb.WriteString(">")
-				sb.WriteString(strings.Join(d.words(k), " "))
+				if d.tall(k) > 0 {
+					sb.WriteString(strings.Join(d.words(k), "<br>"))
+				} else {
+					sb.WriteString(strings.Join(d.words(k), " "))
+				}
 				sb.WriteString("</td>")
 			}
 			sb.WriteString("</tr>")
@@ -662,7 +783,7 @@ func (d *doc) features(g *refGrid) []string {
 	// fixed layout: a spanning cell of the first row whose own width is smaller than the widths
 	// that column elements give to the columns it spans
 	if d.fixedEffective() && wcell != nil && wcell.gy == 0 && wcell.ecs > 1 {
-		tw := d.specifiedWidth()
+		tw := d.specifiedWidth(0)
 		colW := make([]float64, g.ncols)
 		switch d.opt[dCols] {
 		case 1:
@@ -735,6 +856,34 @@ func (d *doc) features(g *refGrid) []string {
 	}
 	if d.opt[dCaption] != 0 {
 		set["caption"] = true
+	}
+	if d.paginated() {
+		set["page-split"] = true // the page holds one or two lines: the table is split over pages
+	}
+	if d.geomMatters() {
+		set["page-geometry"] = true // the pages differ in left margin and/or width
+	}
+	if d.opt[dRowH] != 0 {
+		set["row-height"] = true
+	}
+	if d.opt[dCellH] != 0 {
+		set["cell-height"] = true
+	}
+	if d.opt[dVAlign] != 0 {
+		set["vertical-align"] = true
+	}
+	if d.opt[dContent] >= 8 {
+		set["tall-content"] = true
+	}
+	// a cell spanning rows that does not start in the first row of its row group
+	for _, gr := range g.groups {
+		for y, row := range gr.rows {
+			for _, c := range row.cells {
+				if y > 0 && c.rs > 1 && !c.dropped {
+					set["rowspan-below-first-row"] = true
+				}
+			}
+		}
 	}
 	out := make([]string, 0, len(set))
 	for k := range set {
